@@ -206,6 +206,7 @@ pub struct Model {
     pub trace_seen_in_call: bool,
     pub threshold_changed: bool,
     pub buf_at_collection_start: Vec<ObjId>, // members of the buffer (hook walk) when the running collection started
+    pub clean_stack: Vec<u32>, // action each running Cleanable::clean() call is entitled to run
     pub touched_this_call: Vec<ObjId>, // objects the running collection / destruction chain has traced, finalized or dropped
     pub tls_roots: Vec<ObjId>, // Ccs parked in a user thread-local (C19)
     pub teardown: bool,
@@ -361,6 +362,7 @@ impl World {
                 trace_seen_in_call: false,
                 threshold_changed: false,
                 buf_at_collection_start: Vec::new(),
+                clean_stack: Vec::new(),
                 touched_this_call: Vec::new(),
                 tls_roots: Vec::new(),
                 teardown: false,
